@@ -48,14 +48,27 @@ def oracle_symmetries(rep, rng, n, hint=None):
         cnt += 1
         rep.case('oracle', (fset, target, mode, i), sample=dict(set=fset, target=target, mode=mode) if i < 3 else None)
         rep.hist('oracle.mode', mode)
+        # 40%: the configurations are set IN PLACE on one point object that is evaluated repeatedly through
+        # XS(pt, vars={'phi': ...}) (what a user scanning phi / helicity does); otherwise fresh points and flip=
+        inplace = rng.random() < 0.4
+        rep.hist('oracle.points', 'one point, attributes set in place' if inplace else 'fresh point per evaluation, flip=')
+        import gepard as g
+        ptw = g.DataPoint(**kw)
+
+        def xs_cfg(ph, flips=()):
+            if not inplace:
+                return xs_real(th, dict(kw, phi=ph), flip=list(flips) or None)
+            for a in ('in1polarization', 'in2polarization', 'in1charge'):
+                if a in kw:
+                    setattr(ptw, a, -kw[a] if a in flips else kw[a])
+            return float(th.XS(ptw, vars={'phi': ph}))
         try:
             def parts(ph):
-                kk = dict(kw, phi=ph)
-                o = xs_real(th, kk)
-                b = xs_real(th, kk, flip='in1polarization')
+                o = xs_cfg(ph)
+                b = xs_cfg(ph, ('in1polarization',))
                 if target == 'L':
-                    t_ = xs_real(th, kk, flip='in2polarization')
-                    bt = xs_real(th, kk, flip=['in1polarization', 'in2polarization'])
+                    t_ = xs_cfg(ph, ('in2polarization',))
+                    bt = xs_cfg(ph, ('in1polarization', 'in2polarization'))
                 else:
                     t_, bt = o, b
                 # helicity-independent, beam SSA, target SSA, double spin
@@ -73,7 +86,7 @@ def oracle_symmetries(rep, rng, n, hint=None):
             if not bad and mode == 'real' and (abs(P[1]) > 1e-10 * scale or abs(P[2]) > 1e-10 * scale):
                 bad = 'single-spin difference does not vanish for real CFFs: beam %r target %r (scale %r)' % (P[1], P[2], scale)
             if not bad and mode in ('zeroCFF', 'zeroEFF', 'pureBH'):
-                o, c_ = xs_real(th, kw), xs_real(th, kw, flip='in1charge')
+                o, c_ = xs_cfg(phi), xs_cfg(phi, ('in1charge',))
                 if abs(o - c_) > 1e-10 * (abs(o) + abs(c_)):
                     bad = 'lepton-charge dependence does not vanish (%s): %r vs %r' % (mode, o, c_)
             if not bad and mode == 'pureBH':
@@ -87,9 +100,22 @@ def oracle_symmetries(rep, rng, n, hint=None):
                 for k, v in vals.items():
                     if abs(v) > 1e-10:
                         bad = 'pure Bethe-Heitler %s = %r != 0' % (k, v)
+            if not bad and i % 4 == 0:
+                # the same parity seen through the package's harmonic projection: sin harmonics of the phi-even
+                # cross section and cos harmonics (and mean) of the phi-odd beam-spin difference vanish
+                n = rng.choice([1, 2, 3])
+                kwU = {k: v for k, v in kw.items() if not k.startswith('in2polarization') and k != 'phi'}
+                hv = dict(XUU=float(th.XUU(g.DataPoint(**dict(kwU, FTn=-n)))), XLU=float(th.XLU(g.DataPoint(**dict(kwU, FTn=n)))),
+                          XLU0=float(th.XLU(g.DataPoint(**dict(kwU, FTn=0)))))
+                sc0 = abs(float(th.XUU(g.DataPoint(**dict(kwU, FTn=0)))))
+                rep.case('oracle.harmonics', (fset, n, i))
+                for k, v in hv.items():
+                    if abs(v) > 1e-9 * sc0:
+                        bad = 'wrong-parity harmonic does not vanish: %s(FTn=%d) = %r (XUU(FTn=0) = %r)' % (
+                            k[:3], 0 if k == 'XLU0' else (-n if k == 'XUU' else n), v, sc0)
             if bad:
                 rep.violation('symmetry/%s/%s/%s' % (fset, target, bad.split(':')[0][:40].replace(' ', '_')),
-                              '%s, target %s: %s' % (fset, target, bad), dict(set=fset, target=target, kinematics=kw, model=m, mode=mode))
+                              '%s, target %s: %s' % (fset, target, bad), dict(set=fset, target=target, kinematics=kw, model=m, mode=mode, one_point_set_in_place=inplace))
         except Exception as e:
             rep.violation('symmetry/exception/%s' % type(e).__name__, '%s: XS raised %r' % (fset, e), dict(set=fset, kinematics=kw))
     return cnt
